@@ -82,7 +82,7 @@ IterOf(op, f) == CASE op \in {"mload", "mstore"} /\ f = "gp" -> 3      \* remain
 AlignedOf(op, f) == IF f \in {"a", "d", "pa"} /\ op \in {"ctor_ld", "load", "store", "mload", "mstore"} /\ ~(op \in {"mload", "mstore"} /\ f \in {"d"}) THEN 1
                     ELSE IF op \in {"aload", "astore"} THEN 1 ELSE 0
 UsesOf(op, f) == CASE op \in {"mload", "mstore"} -> "mask" [] IterOf(op, f) = 1 -> "off" [] OTHER -> "none"
-NDraw(op, f, mode) == IF IterOf(op, f) # 0 THEN (IF Quick THEN 1 ELSE 2) ELSE IF mode = "bits" THEN (IF Quick THEN 2 ELSE 8) ELSE (IF Quick THEN 3 ELSE 10)
+NDraw(op, f, mode) == IF IterOf(op, f) # 0 THEN (IF Quick THEN 1 ELSE 2) ELSE IF mode = "bits" THEN (IF Quick THEN 2 ELSE 6) ELSE (IF Quick THEN 3 ELSE 8)
 
 \* masks: every mask for up to 8 lanes; for 16 lanes the two trivial masks, every remainder mask 2^r - 1 (what the
 \* kernels build) and hash-sampled ones up to 64.  Secondary forms of 8-lane vectors take a sample in the quick tier.
@@ -108,7 +108,15 @@ Cases ==
                    : of \in {x \in OpForms : Offered(p[1], p[2], LaneCount(p[1], p[2], p[3]), x[1], x[2])} }
           : p \in Pairs }
 
-Init == c \in Cases
+\* native full-range sweeps (thorough tier): all 2^32 bit patterns of the unary operations on the 32-bit element types; the recorder
+\* hands only the vectors with a lane that differs from the scalar operation to the judge (ordinary events of form "-")
+SweepCases == IF Quick THEN {} ELSE { x \in
+    { [T |-> p[1], abi |-> p[2], n |-> p[3], N |-> LaneCount(p[1], p[2], p[3]), op |-> o, form |-> "sweep", mode |-> "bits", sc |-> 1, osc |-> 1, gen |-> 0,
+       range |-> 0, mbits |-> 8, ndraw |-> 1, iter |-> 0, aligned |-> 0, masks |-> <<>>]
+      : p \in {<<"f32", "sse", 0>>, <<"f32", "avx", 0>>, <<"f32", "avx512", 0>>, <<"f32", "fixed", 8>>, <<"i32", "sse", 0>>, <<"i32", "avx", 0>>, <<"i32", "avx512", 0>>, <<"i32", "fixed", 4>>},
+        o \in {"neg", "abs", "sqrt"} } : ~(x.T = "i32" /\ x.op = "sqrt") }
+
+Init == c \in Cases \cup SweepCases
 Next == UNCHANGED c
 Spec == Init /\ [][Next]_c
 
